@@ -2,33 +2,101 @@ import Kio.Model.Crc
 /-! CRC-32C is XOR-linear and injective in the register: any single-byte change changes it. -/
 namespace Kio.Crc
 
+theorem mask_xor (a b : BitVec 32) : mask (a ^^^ b) = mask a ^^^ mask b := by
+  unfold mask
+  rw [BitVec.getLsbD_xor]
+  cases a.getLsbD 0 <;> cases b.getLsbD 0 <;> simp
+
 theorem step_xor (a b : BitVec 32) : step (a ^^^ b) = step a ^^^ step b := by
-  sorry
+  unfold step
+  rw [mask_xor, BitVec.ushiftRight_xor_distrib]
+  ac_rfl
+
+theorem step_zero : step 0#32 = 0#32 := by decide
+
+theorem step_inj_zero (a : BitVec 32) (h : step a = 0#32) : a = 0#32 := by
+  unfold step mask at h
+  cases ha : a.getLsbD 0
+  · rw [ha] at h
+    simp at h
+    apply BitVec.eq_of_getLsbD_eq
+    intro i hi
+    rcases i with _ | i
+    · simpa using ha
+    · have := congrArg (fun x => x.getLsbD i) h
+      simpa [BitVec.getLsbD_ushiftRight, Nat.add_comm] using this
+  · rw [ha] at h
+    simp at h
+    have := congrArg (fun x => x.getLsbD 31) h
+    simp [poly] at this
+
+theorem xor_eq_zero_imp {a b : BitVec 32} (h : a ^^^ b = 0#32) : a = b := by
+  have : (a ^^^ b) ^^^ b = 0#32 ^^^ b := by rw [h]
+  rw [BitVec.xor_assoc, BitVec.xor_self, BitVec.xor_zero, BitVec.zero_xor] at this
+  exact this
+
+theorem xor_right_cancel {a b c : BitVec 32} (h : a ^^^ c = b ^^^ c) : a = b := by
+  have : (a ^^^ c) ^^^ c = (b ^^^ c) ^^^ c := by rw [h]
+  rw [BitVec.xor_assoc, BitVec.xor_assoc, BitVec.xor_self, BitVec.xor_zero, BitVec.xor_zero] at this
+  exact this
+
+theorem xor_left_cancel {a b c : BitVec 32} (h : c ^^^ a = c ^^^ b) : a = b := by
+  rw [BitVec.xor_comm c a, BitVec.xor_comm c b] at h
+  exact xor_right_cancel h
 
 theorem step_inj {a b : BitVec 32} (h : step a = step b) : a = b := by
-  sorry
+  apply xor_eq_zero_imp
+  apply step_inj_zero
+  rw [step_xor, h, BitVec.xor_self]
+
+theorem step8_inj {a b : BitVec 32} (h : step8 a = step8 b) : a = b := by
+  unfold step8 at h
+  exact step_inj (step_inj (step_inj (step_inj (step_inj (step_inj (step_inj (step_inj h)))))))
 
 theorem feed_inj_state {s s' : BitVec 32} {b : UInt8} (h : feed s b = feed s' b) : s = s' := by
-  sorry
+  unfold feed at h
+  exact xor_right_cancel (step8_inj h)
+
+theorem ofNat_byte_inj {b b' : UInt8}
+    (h : BitVec.ofNat 32 b.toNat = BitVec.ofNat 32 b'.toNat) : b = b' := by
+  have h1 := congrArg BitVec.toNat h
+  simp only [BitVec.toNat_ofNat] at h1
+  have hb : b.toNat < 256 := UInt8.toNat_lt b
+  have hb' : b'.toNat < 256 := UInt8.toNat_lt b'
+  rw [Nat.mod_eq_of_lt (by omega), Nat.mod_eq_of_lt (by omega)] at h1
+  exact UInt8.toNat_inj.mp h1
 
 theorem feed_inj_byte {s : BitVec 32} {b b' : UInt8} (h : feed s b = feed s b') : b = b' := by
-  sorry
+  unfold feed at h
+  exact ofNat_byte_inj (xor_left_cancel (step8_inj h))
 
 theorem run_inj {s s' : BitVec 32} (bs : Bytes) (h : run s bs = run s' bs) : s = s' := by
-  sorry
+  induction bs generalizing s s' with
+  | nil => simpa [run] using h
+  | cons b bs ih =>
+    have h' : run (feed s b) bs = run (feed s' b) bs := by simpa [run] using h
+    exact feed_inj_state (ih h')
+
+theorem run_append_cons (s : BitVec 32) (pre post : Bytes) (b : UInt8) :
+    run s (pre ++ b :: post) = run (feed (run s pre) b) post := by
+  simp [run, List.foldl_append]
 
 /-- changing exactly one byte (anywhere) changes the register -/
 theorem run_byte_change (s : BitVec 32) (pre post : Bytes) (b b' : UInt8) (hb : b ≠ b') :
     run s (pre ++ b :: post) ≠ run s (pre ++ b' :: post) := by
-  sorry
+  intro h
+  rw [run_append_cons, run_append_cons] at h
+  exact hb (feed_inj_byte (run_inj post h))
 
 /-- changing exactly one byte changes the checksum -/
 theorem crc32c_byte_change (pre post : Bytes) (b b' : UInt8) (hb : b ≠ b') :
     crc32c (pre ++ b :: post) ≠ crc32c (pre ++ b' :: post) := by
-  sorry
+  intro h
+  unfold crc32c at h
+  exact run_byte_change _ pre post b b' hb (xor_right_cancel (BitVec.eq_of_toNat_eq h))
 
 /-- the standard check value: CRC-32C("123456789") = 0xE3069283 -/
 theorem check_value : crc32c [0x31, 0x32, 0x33, 0x34, 0x35, 0x36, 0x37, 0x38, 0x39] = 0xE3069283 := by
-  sorry
+  decide +kernel
 
 end Kio.Crc
